@@ -98,15 +98,8 @@ def r_rej_empty(ctx):
                     content = unmut(e.d["args"][2])
             if muts:
                 first = muts[0]
-                guarded = False
-                for d in p.decisions(first.seq):
-                    if d.d["how"] != "if":
-                        continue
-                    # the tested value is the content that is stored later on this path
-                    for cand in ([content] if content is not None else []):
-                        r = is_empty_test(d.d["cond"], cand)
-                        if r and ((d.d["outcome"] is True) == (r < 0)):
-                            guarded = True
+                # the tested value is the content that is stored later on this path
+                guarded = content is not None and knows(p, ("empty", content, False), first.seq) is not None
                 obs.append(Ob("R-REJ-EMPTY", fn, "every mutation is preceded by a refuted emptiness test of the content", guarded,
                               "first mutation: %s" % first.d["fn"].split("::")[-1], first.loc()))
             if p.exit == "err":
@@ -190,7 +183,7 @@ def r_remove_guard(ctx):
             drops_d = [e for e in p.events if e.kind == "call" and e.d["fn"] == HM + "remove" and unmut(e.d["args"][0]) == self_field(roles["data"])]
             drops_s = [e for e in p.events if e.kind == "call" and e.d["fn"] == HM + "remove" and unmut(e.d["args"][0]) == self_field(roles["ids"])]
             setrm = [e for e in p.events if e.kind == "call" and e.d["fn"] == HS + "remove"]
-            hashed = any(d.d.get("pat") is not None and _pat_has_ctor(d.d["pat"], HASH_CTOR) and d.d["outcome"] is not False for d in p.decisions())
+            hashed = knows(p, ("variant", removed, HASH_CTOR, True)) is not None
             if hashed:
                 ok_set = len(setrm) == 1 and unmut(setrm[0].d["args"][1]) == V("param:tile_id") and any(
                     is_call_to(t, lambda s: s in (HM + "entry", HM + "get_mut")) and t[2][0] == self_field(roles["ids"]) and t[2][1] == hpay for t in subterms(unmut(setrm[0].d["args"][0])))
@@ -199,13 +192,7 @@ def r_remove_guard(ctx):
                 n_drop += 1
                 which = "bytes" if dr in drops_d else "id set"
                 key_ok = unmut(dr.d["args"][1]) == hpay
-                guard = False
-                for d in p.decisions(dr.seq):
-                    if d.d["how"] != "if" or not setrm or d.seq < setrm[0].seq:
-                        continue
-                    r = is_empty_test(d.d["cond"], unmut(setrm[0].d["args"][0]))
-                    if r and ((d.d["outcome"] is True) == (r > 0)):
-                        guard = True
+                guard = bool(setrm) and knows(p, ("empty", unmut(setrm[0].d["args"][0]), True), dr.seq, after=setrm[0].seq) is not None
                 obs.append(Ob("R-REMOVE-GUARD", fn, "%s dropped only when the id set became empty (tested after removing this id)" % which, guard and key_ok,
                               "key = %s; emptiness guard after the id-set removal: %s" % (tstr(unmut(dr.d["args"][1]))[:80], guard), dr.loc()))
             if drops_d or drops_s:
@@ -250,7 +237,7 @@ def r_lookup(ctx):
         fa = ctx.fa(f)
         n = 0
         for p in fa.paths:
-            dec = [d for d in p.decisions() if d.d.get("pat") is not None and _pat_has_ctor(d.d["pat"], HASH_CTOR) and d.d["outcome"] is not False]
+            dec = [d for fct, d in path_facts(p) if fct[0] == "variant" and fct[2] == HASH_CTOR and fct[3] is True]
             if not dec:
                 continue
             n += 1
@@ -745,7 +732,7 @@ def r_add_offset(ctx):
             val = unmut(ins[0].d["args"][2]) if ins else None
             ok = ok and is_call_to(val, lambda s: s == "tile_manager::TileManagerTile::OffsetLength") and list(val[2]) == [P.get("offset"), P.get("length")]
             obs.append(Ob("R-ADD-OFFSET", fn, "stores id ↦ OffsetLength(offset, length) in the id map, nothing else", ok and len(mutations(p, roles)) == 1, "insert value %s" % tstr(val)[:80], rel(f["loc"])))
-            g = any(d.d["how"] == "if" and unmut(d.d["cond"]) == ("bin", "==", P.get("length"), C(0)) and d.d["outcome"] is False for d in p.decisions(ins[0].seq if ins else None))
+            g = knows(p, ("ne", P.get("length"), 0), ins[0].seq if ins else None) is not None
             obs.append(Ob("R-ADD-OFFSET", fn, "length 0 refuted before the insert", g, "guard found: %s" % g, rel(f["loc"])))
         obs.append(Ob("R-ADD-OFFSET", fn, "length 0 ⇒ Err without mutation", bool(errs) and all(not mutations(p, roles) for p in errs), "error exits: %d" % len(errs), rel(f["loc"])))
     return obs
